@@ -24,8 +24,10 @@ theorem pthread_early (env : Env) (he : Returns env) (hc : C05.Returns env) (a :
 
 set_option maxRecDepth 8000 in
 set_option maxHeartbeats 4000000 in
-theorem pthread_late_fired (env : Env) (he : Returns env) (a : Async) (ha : pthreadCov a) (n m : Nat) (hm : m < loopLen n pthreadL pthreadLr) :
-    ∃ F, StreamShape n (execBlock env F { inputs := List.replicate n .item ++ [.release], left := some (m + pthreadP), async := a } pthreadRun) := by
+/-- a graceful stop that lands inside the loop - in any pass, at any line - still ends the stream with exactly one end marker -/
+theorem pthread_late_fired_graceful (env : Env) (he : Returns env) (a : Async) (ha : pthreadCov a) (hk : a ≠ .kill) (n m : Nat)
+    (hm : m < loopLen n pthreadL pthreadLr) :
+    ∃ F, StreamEnds n (execBlock env F { inputs := List.replicate n .item ++ [.release], left := some (m + pthreadP), async := a } pthreadRun) := by
   obtain ⟨F, hF40, hF⟩ := pthread_loop_disturbed env he a ha n
   have hW : pthreadW = .whileS _ _ _ := rfl
   have hrule := loop_fire_rule env a n pthreadL pthreadLr F pthreadW pthreadExtra hF
@@ -40,14 +42,55 @@ theorem pthread_late_fired (env : Env) (he : Returns env) (a : Async) (ha : pthr
   unfold pthreadP
   rcases ha with rfl | rfl
   all_goals
-    (simp [pthreadRun, pthreadExtra, firedOut, firedReq, firedCtrl, exec_line, exec_ret, exec_brk, exec_call, exec_ifS, exec_tryS, execBlock, execHandlers,
-       lineEvent, doActs, doAct, evalCond, Catch.catches, hrule, hm, he.ret, he.tn, he.na]
-     generalize hg : loopEx env F _ _ = g
-     obtain ⟨j, hj, hres⟩ := hp _ _ hg rfl rfl ⟨rfl, rfl, rfl⟩ (by unfold pthreadExtra; first | rfl | trivial)
-     simp only [List.nil_append] at hres
-     first
-       | exact ⟨by simp, j, hj, Or.inr ⟨_, by rw [hres]⟩⟩
-       | exact ⟨by simp, j, hj, Or.inl hres⟩)
+    first
+    | exact absurd rfl hk
+    | (simp [pthreadRun, pthreadExtra, firedOut, firedReq, firedCtrl, exec_line, exec_ret, exec_brk, exec_call, exec_ifS, exec_tryS, execBlock, execHandlers,
+         lineEvent, doActs, doAct, evalCond, Catch.catches, hrule, hm, he.ret, he.tn, he.na]
+       generalize hg : loopEx env F _ _ = g
+       obtain ⟨j, hj, hres⟩ := hp _ _ hg rfl rfl ⟨rfl, rfl, rfl⟩ (by unfold pthreadExtra; first | rfl | trivial)
+       simp only [List.nil_append] at hres
+       exact ⟨by simp, j, hj, _, by rw [hres]⟩)
+
+set_option maxRecDepth 8000 in
+set_option maxHeartbeats 4000000 in
+theorem pthread_late_fired_kill (env : Env) (he : Returns env) (n m : Nat) (hm : m < loopLen n pthreadL pthreadLr) :
+    ∃ F, StreamShape n (execBlock env F { inputs := List.replicate n .item ++ [.release], left := some (m + pthreadP), async := .kill } pthreadRun) := by
+  obtain ⟨F, hF40, hF⟩ := pthread_loop_disturbed env he .kill (by simp [pthreadCov]) n
+  have hW : pthreadW = .whileS _ _ _ := rfl
+  have hrule := loop_fire_rule env .kill n pthreadL pthreadLr F pthreadW pthreadExtra hF
+  have hpre := loop_fire_prefix env .kill n pthreadL pthreadLr F pthreadW pthreadExtra hF
+  rw [hW] at hrule hpre
+  have hp : ∀ (g st : St), loopEx env F st (.whileS (lnOf pthreadW) (condOf pthreadW) (bodyOf pthreadW)) = g →
+      st.inputs = List.replicate n .item ++ [.release] → st.left = some m → QuietC .kill st → pthreadExtra st →
+      ∃ j, j ≤ n ∧ g.results = st.results ++ itemsFrom st.counter j := by
+    intro g st h hi hl hq hx; rw [← h]; exact hpre st m hi hl hm hq hx
+  clear hpre hF
+  refine ⟨F + 90, ?_⟩
+  unfold pthreadP
+  simp [pthreadRun, pthreadExtra, firedOut, firedReq, firedCtrl, exec_line, exec_ret, exec_brk, exec_call, exec_ifS, exec_tryS, execBlock, execHandlers,
+    lineEvent, doActs, doAct, evalCond, Catch.catches, hrule, hm, he.ret, he.tn, he.na]
+  generalize hg : loopEx env F _ _ = g
+  obtain ⟨j, hj, hres⟩ := hp _ _ hg rfl rfl ⟨rfl, rfl, rfl⟩ (by unfold pthreadExtra; first | rfl | trivial)
+  simp only [List.nil_append] at hres
+  first
+    | exact ⟨by simp, j, hj, Or.inl hres⟩
+    | exact ⟨by simp, j, hj, Or.inr ⟨_, by rw [hres]⟩⟩
+
+theorem pthread_late_fired (env : Env) (he : Returns env) (a : Async) (ha : pthreadCov a) (n m : Nat) (hm : m < loopLen n pthreadL pthreadLr) :
+    ∃ F, StreamShape n (execBlock env F { inputs := List.replicate n .item ++ [.release], left := some (m + pthreadP), async := a } pthreadRun) := by
+  by_cases hk : a = .kill
+  · subst hk; exact pthread_late_fired_kill env he n m hm
+  · obtain ⟨F, h⟩ := pthread_late_fired_graceful env he a ha hk n m hm
+    exact ⟨F, h.shape⟩
+
+/-- a graceful stop landing inside the loop, for every fuel from some point on -/
+theorem pthread_ends_in_loop (env : Env) (he : Returns env) (a : Async) (ha : pthreadCov a) (hk : a ≠ .kill) (n K : Nat)
+    (h1 : pthreadP ≤ K) (h2 : K < pthreadP + loopLen n pthreadL pthreadLr) :
+    ∃ F0, ∀ F, F0 ≤ F →
+      StreamEnds n (execBlock env F { inputs := List.replicate n .item ++ [.release], left := some K, async := a } pthreadRun) := by
+  obtain ⟨m, rfl⟩ : ∃ m, K = m + pthreadP := ⟨K - pthreadP, by omega⟩
+  obtain ⟨F, h⟩ := pthread_late_fired_graceful env he a ha hk n m (by omega)
+  exact ⟨F, streamEnds_mono env _ _ n F h⟩
 
 set_option maxRecDepth 8000 in
 set_option maxHeartbeats 4000000 in
